@@ -231,6 +231,35 @@ Theorem C16_strip_recursive_exact_src :
 Proof. exact strip_rec_exact_src. Qed.
 Print Assumptions C16_strip_recursive_exact_src.
 
+(* round 5: Tree.__init__, Tree.clear, Attribute.__getitem__ and Attribute.classes regenerated as well:
+   a new HtmlToAst(name) followed by feed() - __init__ builds the Tree, feed() clears it, the handlers
+   run - is the modelled call build (init_tree name); clear() yields the initial tree whatever the Tree
+   held before; the two Attribute accessors equal the modelled ones *)
+Theorem C16_tokenize_src : forall (name : str) (evs : list event),
+  build_src (clear_src (tree_init_src name) name) evs = build (init_tree name) evs
+  /\ (forall t, clear_src t name = init_tree name)
+  /\ (forall d k, attr_getitem_src d k = attr_getitem d k)
+  /\ (forall d, classes_src d = classes d).
+Proof. exact tokenize_src_model. Qed.
+Print Assumptions C16_tokenize_src.
+
+(* round 5: the ten render methods regenerated (f-strings, the join over the children as a loop, dispatch
+   on the class; tag_overrides = None): the exact round trip holds of regenerated code only - __init__,
+   clear, the handlers, render *)
+Theorem C16_roundtrip_src : forall (parse : str -> list event),
+  (forall hs, wf_doc hs = true -> parse (print_doc hs) = events_doc hs) ->
+  forall (name : str) (hs : list html), wf_doc hs = true ->
+  exists t, build_src (clear_src (tree_init_src name) name) (parse (print_doc hs)) = Ok t
+            /\ render_src (length (t_cells t)) (t_cells t) (t_outmost t) = Ok (print_doc hs).
+Proof. exact roundtrip_src. Qed.
+Print Assumptions C16_roundtrip_src.
+
+(* ... and whenever the modelled render returns, the regenerated one returns the same text *)
+Theorem C16_render_src : forall (f : nat) (st : store) (i : nat) (s : str),
+  render f st i = Ok s -> render_src f st i = Ok s.
+Proof. exact render_src_refines. Qed.
+Print Assumptions C16_render_src.
+
 (* ---- non-vacuity ---- *)
 Local Open Scope N_scope.
 
